@@ -26,7 +26,7 @@ RULE = ("(A) generated definition/use programs (random DAGs over <=9 names with 
         "Model.LazyEval.lazy_run and final_run; the Gallina move_def is compared with the harness's on the same programs. "
         "(B) metamorphic on the real code: every/sampled placement move_def(p,i,j) and permute_defs of the movable top-level "
         "definitions of proggen programs (1-2 files, includes), of 'name = expr' lines of the 21 practice-corpus programs, and "
-        "unused faulty definitions (undefined name, zero divisor, cycle) moved anywhere; two-file programs whose exporter has '.extern all' / '.extern names' / '::' / '==' and whose constants and labels are used from the other file, definitions crossing the .extern lines, exporter linked first and last; label-difference programs (.blkb/.blkw/.repeat counts and '. =' skips whose operand is a symbol chain ending in a difference of labels defined later, definitions placed anywhere), chain x use-position programs (uses in .byte .word immediates index words absolute operands .blkb .blkw .repeat counts "
+        "consumer positions (register numbers %sym of every operand class incl. FP11 accumulators at 5/6/7, .repeat/.blkb/.blkw/.align counts, '. =' and .link, path chunks <n> of insert_file/.include, shift counts, branch/jump targets, instruction fields at their limits) in statements referring to later labels, definition first / after the consumer / last and as a chain of two; unused faulty definitions (undefined name, zero divisor, cycle) moved anywhere; two-file programs whose exporter has '.extern all' / '.extern names' / '::' / '==' and whose constants and labels are used from the other file, definitions crossing the .extern lines, exporter linked first and last; label-difference programs (.blkb/.blkw/.repeat counts and '. =' skips whose operand is a symbol chain ending in a difference of labels defined later, definitions placed anywhere), chain x use-position programs (uses in .byte .word immediates index words absolute operands .blkb .blkw .repeat counts "
         ".link '. =' .align trap/emt fields string codes); bytes, base, outcome class must be equal. "
         "non-trivial = a distinct (program, moved definition, target position) whose definition is referenced by the program")
 LEVEL_TEXT = ("Coq theorems on Model/LazyEval.v, for definition tables and expressions of any size: monotonicity of speculative "
@@ -748,6 +748,75 @@ def labeldiff_groups(rng, tier):
     return groups
 
 
+# B3g: every position where a symbol is consumed -- not only data / immediate values: register numbers ('%sym') for
+# every operand class incl. FP11 accumulators at the boundary values, counts, skip targets, link base, path chunks
+# '<n>', shift counts, branch / jump targets, instruction fields -- in statements whose bodies or neighbours refer to a
+# label defined later; the definition stands first / right after the consumer / last (and as a chain of two in all
+# nine slot combinations)
+REGV = ["0", "5", "6", "7", "10"]
+FPV = ["0", "3", "5", "6", "7"]
+POSITIONS = (
+    [(t, REGV) for t in ["mov %X, r0", "mov r0, %X", "mov (%X), r1", "mov (%X)+, r1", "mov -(%X), r1", "mov @(%X)+, r1", "mov 2(%X), r1",
+                         "mov @2(%X), r1", "mov lend(%X), r1", "clr %X", "jsr %X, lend", "sob %X, lbeg", "mul lend, %X", "xor %X, r1",
+                         "rts %X", "ash #1, %X", "div #3, %X", "movb #1, @lend(%X)"]] +
+    [(t, FPV) for t in ["ldf %X, ac1", "mulf %X, ac2", "stf ac1, %X", "ldf (%X)+, ac0", "addf %X, ac3", "ldcif %X, ac1", "stcfi ac1, %X",
+                        "ldexp %X, ac0", "absf %X", "negf (%X)", "tstf %X", "clrf %X", "ldfps %X", "stfps %X", "ldd %X, ac0", "cmpf %X, ac1",
+                        "ldf lend, %X", "stf %X, lend", "divf lend(%X), ac1"]] +
+    [(t, ["0", "1", "3"]) for t in [".repeat X { .word lend, k }", ".repeat X { br lend }", ".repeat X { mov #lend, r0 }",
+                                    ".repeat X { .repeat X { .byte lend - lbeg } }\n.even", ".repeat X { .word . , lend - . }",
+                                    ".repeat 2 { .repeat X { jmp lend } }", ".blkw X", ".repeat X { .blkw X }\n.word lend"]] +
+    [(".blkb X\n.even", ["0", "1", "4"]), (".align X", ["1", "2", "10", "0"]), (". = lbeg + X", ["2", "6", "0"]),
+     (". = lbeg + X\n.word lend", ["4"]), (".even\n.blkb lend - lbeg - X", ["2", "3"])] +
+    [(t, ["0", "1", "3", "-1"]) for t in [".word 1 << X", ".word lend _ X", "mov #<lend - lbeg> _ X, r0", ".word 100 >> X", ".word lend >> X",
+                                          ".word lend << X", ".blkw 1 << X", ".repeat 1 _ X { .word lend }"]] +
+    [('insert_file "blob" <X> ".bin"\n.even', ["61", "62"]), ('.include "inc" <X> ".mac"', ["61", "62"]),
+     ('.ascii "a"<X>\n.even', ["101", "0", "454"]), ('.asciz <X>\n.even', ["101"]), ('.rad50 /ab/<X>', ["1", "47", "50"])] +
+    [(t, ["lend", "lbeg", "lend + 2"]) for t in ["br X", "bne X", "jmp X", "jsr pc, X", "mov X, r0", "mov @X, r0", "sob r1, X", "jmp @X"]] +
+    [("emt X", ["0", "377", "400"]), ("trap X", ["0", "377", "400"]), ("mark X", ["0", "77", "100"]), ("spl X", ["0", "7", "10"]),
+     (".dword X", ["0", "210560"]), (".byte X\n.even", ["377", "400", "-200", "-201"]), (".word X", ["177777", "200000", "-177777"])]
+)
+
+
+def position_groups(rng, tier):
+    groups = []
+    fs = {"blob1.bin": bytes([1, 2, 3, 4]), "inc1.mac": "ilab: .word ilab, 5, k\n"}
+    for ti, (tmpl, values) in enumerate(POSITIONS):
+        body = tmpl.replace("%X", "%xx").replace("<X>", "<xx>").replace("X", "xx").split("\n")
+        for vi, val in enumerate(values):
+            for link in (True, False):
+                if tier == "quick" and not link and (ti + vi) % 2:
+                    continue
+                head = [".link 2000"] if link else []
+                skel = head + ["lbeg: nop"] + body + ["lend: .word lend - lbeg, k", "k = 7"]
+                cut = len(head) + 1 + len(body)            # right after the consumer
+                slots = {"top": len(head), "mid": cut, "end": len(skel)}
+
+                def build(assign):
+                    out = []
+                    for k in range(len(skel) + 1):
+                        for sl, d in assign:
+                            if slots[sl] == k:
+                                out.append(d)
+                        if k < len(skel):
+                            out.append(skel[k])
+                    return "\n".join(out) + "\n"
+                one = [f"xx = {val}"]
+                two = [f"xx = yy + 0", f"yy = {val}"]
+                base = build([("top", one[0])])
+                variants = [("single@mid", [("t.mac", build([("mid", one[0])]))], fs),
+                            ("single@end", [("t.mac", build([("end", one[0])]))], fs)]
+                combos = [(a, b) for a in slots for b in slots]
+                if tier == "quick":
+                    combos = [("end", "end"), ("mid", "end"), ("end", "top")] if (ti + vi) % 3 == 0 else [("end", "end")]
+                for a, b in combos:
+                    variants.append((f"chain xx@{a} yy@{b}", [("t.mac", build([(a, two[0]), (b, two[1])]))], fs))
+                    if a == b:
+                        variants.append((f"chain yy,xx@{a}", [("t.mac", build([(b, two[1]), (a, two[0])]))], fs))
+                groups.append({"key": f"position:{tmpl.splitlines()[0] if False else tmpl[:40]}:{val}:{'link' if link else 'nolink'}",
+                               "base": ([("t.mac", base)], fs), "variants": variants})
+    return groups
+
+
 # B3e: faulty definitions nobody uses (undefined name, zero divisor, cycle): the build fails wherever they stand
 def faulty_groups(rng, tier):
     groups = []
@@ -823,6 +892,10 @@ def metamorphic(rep, rng, tier, scale=1):
     g3e = extern_groups(rng, tier)
     bad = run_pairs(rep, "extern", g3e, watchdog=8)
     report_bad(rep, "extern", bad)
+    g3g = position_groups(rng, tier)
+    bad = run_pairs(rep, "position", g3g, watchdog=8)
+    report_bad(rep, "position", bad)
+    rep.count("position:groups", len(g3g))
     g3f = faulty_groups(rng, tier)
     bad = run_pairs(rep, "faulty", g3f, watchdog=8)
     report_bad(rep, "faulty", bad)
